@@ -3,7 +3,7 @@
    proved in Score/*.v about the model Score/ScoreQ.v (tied to domain/analyze.go and
    app/analyze_usecase.go:calculateSummary by Gen/DomainConst.v and the correspondence check). *)
 From Coq Require Import ZArith QArith List.
-From PV Require Import Gen.DomainConst Gen.ScoreGen Score.ScoreQ Score.ScoreProofs Score.ScoreMono Score.ScoreSkip Score.ScoreTie.
+From PV Require Import Gen.DomainConst Gen.ScoreGen Score.ScoreQ Score.ScoreProofs Score.ScoreMono Score.ScoreSkip Score.ScoreTie Score.ScoreGrade.
 Open Scope Q_scope.
 
 (* the model the theorems below are about is, function by function, the Gallina text generated from
@@ -70,6 +70,22 @@ Proof. exact score_monotone. Qed.
 Theorem C15_skip_never_lowers : forall sel sel' a, analyses_ok a -> sel_le sel sel' ->
   (score_of log10 sel' a <= score_of log10 sel a)%Z.
 Proof. exact (skip_never_lowers log10 log10_nonneg). Qed.
+(* consistently graded: the grade is monotone in the score (a higher score never gets a worse letter),
+   grades are intervals of scores, worse measurements never improve the letter, and N/A is exactly
+   the invalid summaries *)
+Theorem C15_grade_rank_mono : forall sc sc', (sc <= sc')%Z ->
+  (grade_rank (grade_of sc) <= grade_rank (grade_of sc'))%Z.
+Proof. exact grade_rank_mono. Qed.
+Theorem C15_grade_convex : forall a b c, (a <= b <= c)%Z -> grade_of a = grade_of c -> grade_of b = grade_of a.
+Proof. exact grade_convex. Qed.
+Theorem C15_grade_monotone : forall nf s s', 0 < nf -> counts_nonneg s -> worse s s' ->
+  (grade_rank (grade_of (raw_score nf s')) <= grade_rank (grade_of (raw_score nf s)))%Z.
+Proof. exact grade_monotone. Qed.
+Theorem C15_valid_grade_not_na : forall s, validate s = true -> r_grade (calculate_health_score log10 s) <> GNA.
+Proof. exact (valid_grade_not_na log10). Qed.
+Theorem C15_invalid_is_na : forall s, validate s = false ->
+  r_grade (calculate_health_score log10 s) = GNA /\ r_health (calculate_health_score log10 s) = 0%Z.
+Proof. exact (invalid_is_na log10). Qed.
 End C15.
 
 Print Assumptions C15_model_is_the_translated_source.
@@ -81,3 +97,8 @@ Print Assumptions C15_grade_of_score.
 Print Assumptions C15_grade_table.
 Print Assumptions C15_monotone.
 Print Assumptions C15_skip_never_lowers.
+Print Assumptions C15_grade_rank_mono.
+Print Assumptions C15_grade_convex.
+Print Assumptions C15_grade_monotone.
+Print Assumptions C15_valid_grade_not_na.
+Print Assumptions C15_invalid_is_na.
